@@ -13,6 +13,9 @@ def main():
         print(__doc__); return 2
     if sys.argv[1] == '--replay':
         return replay(sys.argv[2])
+    if sys.argv[1] == '--selftest':
+        import selftest
+        return selftest.main(int(os.environ.get('VERIF_SEED', '1') or 1))
     prop = sys.argv[1]
     tier = sys.argv[2] if len(sys.argv) > 2 else os.environ.get('VERIF_TIER', 'quick')
     if tier not in ('quick', 'thorough'):
